@@ -32,7 +32,7 @@ Definition housekeeping (x : titem) : Prop :=
 Ltac ext_inst L ok0 :=
   first [eapply L with (P := ext_by ok0) (ok_item := ok0) | eapply L with (P := ext_by ok0)];
   try exact (ext_refl ok0); try exact (ext_trans ok0);
-  try (intros; apply write_from_emit with (ok_item := ok0); try exact (ext_refl ok0); try exact (ext_trans ok0);
+  try (intros; apply send_from_emit with (ok_item := ok0); try exact (ext_refl ok0); try exact (ext_trans ok0);
        try (intros; apply ext_emit; assumption); try (intros; apply ext_field; reflexivity); try (intros; exact I));
   try (intros; apply ext_emit; assumption);
   try (intros; apply ext_field; reflexivity);
@@ -40,7 +40,7 @@ Ltac ext_inst L ok0 :=
 
 Lemma ext_send_frame (ok : titem -> Prop) c op r p : (forall w, ok (TWrite w)) -> (forall w, ok (TWriteFail w)) ->
   ext_by ok c (fst (send_frame c op r p)).
-Proof. intros H1 H2. ext_inst fr_send_frame ok; auto. Qed.
+Proof. intros H1 H2. apply send_from_emit with (ok_item := ok); auto; try exact (ext_refl ok); try exact (ext_trans ok); try (intros; apply ext_emit; assumption); try (intros; apply ext_field; reflexivity). Qed.
 
 Lemma ext_api_call c a : ext_by not_event c (fst (api_call c a)).
 Proof. ext_inst fr_api_call not_event. Qed.
